@@ -1,2 +1,3 @@
 import RaftVerif.Core.Catchup
+import RaftVerif.Proofs.Replicate
 /-! # C12 — convergence (catch-up half).  Registered: `RP.catchup_terminates`. -/
